@@ -36,3 +36,30 @@ HEADS = {
     "DocStringSeparator": ['"""', "```"],
     "Other": ["", '\\"\\"\\"', "\\`\\`\\`"],
 }
+
+
+def interesting_dialects(table, limit=None):
+    """dialects picked by properties of their keyword data (computed from the master table at run time): keywords that are not in
+    Unicode NFC, step keywords without a trailing blank, step keywords that are proper prefixes of other step keywords, keywords
+    with characters outside letters/blanks, right-to-left scripts; always 'en' first"""
+    import unicodedata
+    cats = ["feature", "rule", "background", "scenario", "scenarioOutline", "examples", "given", "when", "then", "and", "but"]
+    out = {}
+    for d, spec in table.items():
+        why = []
+        kws = [k for c in cats for k in spec[c]]
+        steps = [k for c in cats[6:] for k in spec[c]]
+        if any(unicodedata.normalize("NFC", k) != k for k in kws):
+            why.append("non-NFC keyword")
+        if any(not k.endswith(" ") for k in steps):
+            why.append("space-less step keyword")
+        if any(a != b and b.startswith(a) and a != "* " for a in steps for b in steps):
+            why.append("step keyword prefix pair")
+        if any(unicodedata.bidirectional(ch) in ("R", "AL") for k in kws for ch in k):
+            why.append("right-to-left")
+        if any(not (ch.isalpha() or ch.isspace() or ch == "*") for k in kws for ch in k):
+            why.append("punctuation in keyword")
+        if why:
+            out[d] = why
+    names = ["en"] + sorted(d for d in out if d != "en")
+    return names[:limit] if limit else names, out
